@@ -25,7 +25,7 @@ LEVEL_TEXT = (
     '(C08_shapes_sub_image_new_total); the class itself is a recorded finding with a machine-checked witness. '
     'Tie 1 (translator): translate/gen_arith.py regenerates from the tree under test the identifier-free skeleton (operators, arithmetic / '
     'saturating / checked methods, calls of the crate\'s arithmetic helpers, casts, conversions, indexing, unwrap, panicking macros, guards '
-    'against literals, grouping) of every non-test function of 74 source files; C08_sites_covered (vm_compute reflection) requires each to '
+    'against literals, grouping) of every non-test function of 73 source files; C08_sites_covered (vm_compute reflection) requires each to '
     'equal the recorded skeleton or be literal-only; unmodelled_fns is empty. Functions covered by another part (C08_raw, C08_targets, '
     'C08_image) or consisting of Real / f32 arithmetic are recorded by reference / as search-only, so that a change forces a re-read. '
     'Tie 2 (correspondence): 26 ok_* suites compare f_ok with "did the real function panic" (overflow checks + debug assertions) on inputs '
